@@ -1,7 +1,7 @@
 """C17 - requiring a namespace loads the right typelib version (girepository/girepository.c, version election)."""
 from givc.contracts import contract
 from givc.model import UNIVERSE, schema as _schema, add_spec_namespace as _asn
-from givc.cruntime import Cell, __elemref
+from givc.cruntime import Cell, __elemref, __ptrint
 from . import schema   # noqa
 from . import c08_offsets_c, c14_typelib_lookup_c   # noqa
 from .c14_typelib_lookup_c import CSTR, GITypelib, Header
@@ -250,3 +250,59 @@ contract('c:find_namespace_latest', cfile=CF,
 def elected_le(version, path, mfile, other):
     """the elected (version, path, file) triple belongs to a candidate that precedes-or-ties `other` in election order"""
     return version_cmp(CSTR(version), CSTR(other.version)) >= 0
+
+
+# ---- dependencies: every namespace-version recorded in a typelib is required in exactly that version ----------------------------------
+class GIRepository(object): pass
+UNIVERSE.register(GIRepository)
+_schema(GIRepository, required='dict')          # ghost: namespace (as handed to g_irepository_require) -> version it is loaded in
+
+
+def FIRST_NULL(strv):
+    """index of the terminating NULL of a string vector"""
+
+
+def DEP_NS(dep):
+    """the namespace part of 'Namespace-Version' as load_dependencies_recurse cuts it: everything before the LAST dash"""
+    return c_g_strndup(dep, c_strrchr(dep, 45) - dep)
+
+
+def DEP_VERSION(dep):
+    """the version part: the text after the last dash (an address inside dep)"""
+    return c_strrchr(dep, 45) + 1
+
+
+contract('contracts.py.c17_repository_c.FIRST_NULL', params={'strv': 'list'}, returns='int', pure_keys=['strv'], trusted=True)
+contract('c:get_typelib_dependencies', params={'typelib': 'GITypelib'}, returns='list?', pure_keys=['typelib'], trusted=True,
+         ghost={'G': 'int'},
+         ensures={'null_terminated': 'result is None or (0 <= FIRST_NULL(result) and FIRST_NULL(result) < len(result) and '
+                                     'result[FIRST_NULL(result)] is None)',
+                  'strings_before': 'implies(result is not None and 0 <= G and G < FIRST_NULL(result), result[G] is not None)'},
+         note='g_strsplit of the dependencies string of the header: a NULL-terminated vector')
+contract('c:g_strfreev', params={'v': 'any'}, trusted=True)
+contract('c:g_irepository_require', params={'repository': 'GIRepository', 'namespace': 'any', 'version': 'any', 'flags': 'int',
+                                            'error': 'any'}, returns='any', trusted=True, ghost={'G': 'any'},
+         modifies=['repository.required{}'],
+         ensures={'loaded_in_that_version': 'implies(result is not None, repository.required.get(namespace) == version)',
+                  'a_loaded_namespace_keeps_its_version':
+                      'implies(old(repository.required.get(G)) is not None, repository.required.get(G) == old(repository.required.get(G)))'},
+         note='assumed (the function itself, with search path, version election and conflict check, is covered piecewise by the other '
+              'C17 contracts): on success the namespace is loaded in the requested version; a namespace once loaded keeps its version')
+contract('c:load_dependencies_recurse', cfile=CF, params={'repository': 'GIRepository', 'typelib': 'GITypelib', 'error': 'any'},
+         returns='int', ghost={'K': 'int'}, props=('C17',), modifies=['repository.required{}'],
+         ghost_args={'c:get_typelib_dependencies': [{'G': 'K'}],
+                     'c:g_irepository_require': [{'G': 'DEP_NS(caller_dependencies[K])'}]},
+         loops={1: {'modifies': ['repository.required{}'],
+                    'var_types': {'i': 'int', 'dependency': 'any', 'last_dash': 'int', 'dependency_namespace': 'any',
+                                  'dependency_version': 'int'},
+                    'invariant': ['0 <= i and i <= FIRST_NULL(dependencies)',
+                                  'implies(0 <= K and K < i, dependencies[K] is not None)',
+                                  'implies(0 <= K and K < i, repository.required.get(DEP_NS(dependencies[K])) == DEP_VERSION(dependencies[K]))'],
+                    'post': ['dependencies[i] is None',
+                             'implies(0 <= K and K < i, dependencies[K] is not None and '
+                             'repository.required.get(DEP_NS(dependencies[K])) == DEP_VERSION(dependencies[K]))']}},
+         ensures={'C17.dependencies.boolean_result': 'result == 0 or result == 1'},
+         note='loop1.post0-1 (the loop is left only at the terminating NULL; an entry that fails returns FALSE at once): each `Namespace-Version` entry of the typelib went through g_irepository_require with exactly that '
+              'namespace and version (so that an already loaded namespace is checked for a version conflict)')
+contract('c:get_registered', params={'repository': 'GIRepository', 'namespace': 'any', 'version': 'any'}, returns='any', trusted=True,
+         note='lookup in the tables of loaded typelibs (not modelled: nothing is assumed about its result)')
